@@ -275,7 +275,14 @@ def rule_r8(ctx):
     c13.rule_r5(ctx, rid="C11.R8")
 
 
-RULES = [rule_r1, rule_r2, rule_r3, rule_r4, rule_r5, rule_r6, rule_r7, rule_r8]
+def rule_r9(ctx):
+    """Shared with C09.R9: the close decision after a swallowed socket error is taken on every path (close_on_finish), so no later request of the connection is executed."""
+    from . import c01, c09
+    c09.rule_r9(ctx, rid="C11.R9")
+    c01.rule_r8(ctx, rid="C11.R9")  # ... and a Transfer-Encoding outside HTTP/1.1 is a close decision for every such version
+
+
+RULES = [rule_r1, rule_r2, rule_r3, rule_r4, rule_r5, rule_r6, rule_r7, rule_r8, rule_r9]
 
 from ..selftest import M, T, V  # noqa: E402
 
